@@ -640,10 +640,10 @@ fn main() {
                 }
                 // the rule object and the front door on a thin slice
                 let full = (1usize << l.optional.len()) - 1;
-                for (a, b) in &pairs {
+                for (a, b) in &pairs_for(l.id) {
                     let (ca, cb) = (cfg(a), cfg(b));
                     for src in &srcs {
-                        for lit in &lits {
+                        for lit in &lits_for(l.id, true) {
                             for mask in [full, 1, 2, 5] {
                                 if l.base.contains(src) {
                                     run_e2e(&ca, &cb, l, mask & full, src, lit);
@@ -655,12 +655,16 @@ fn main() {
             }
         }
         "one" => {
-            // dl-c15 one <cur> <tgt> <src> <literal> <file>...
+            // dl-c15 one <cur> <tgt> <src> <literal> <file>...   (a file named .luaurc gets `{"aliases":{"pkg":"rc","root":"."}}`)
             let (ca, cb) = (cfg(&args[1]), cfg(&args[2]));
             let resources = Resources::from_memory();
             hooks::c15::clear_luau_configuration_cache();
             for f in &args[5..] {
-                resources.write(f, "return nil").unwrap();
+                if f.ends_with(".luaurc") {
+                    resources.write(f, r#"{"aliases":{"pkg":"rc","root":"."}}"#).unwrap();
+                } else {
+                    resources.write(f, "return nil").unwrap();
+                }
             }
             let (f, g, r) = convert_one(&ca, &ca.mode(), &cb, &cb.mode(), &args[3], &args[4], &resources);
             println!("found={:?}\ngenerated={:?}\nrefound={:?}", f, g, r);
